@@ -17,7 +17,7 @@ import reftext
 
 PID = 'C13'
 I2 = Schema('I2', [Opt('func', 'include', '', None, 'i'), Opt('int', 'i', '', 5), Opt('int', 'l', 'L', [b'1']), Opt('str', 's', '', b'd'),
-                   Opt('sec', 'm', 'M', sub=[Opt('int', 'x', '', 1), Opt('func', 'include', '', None, 'i')]),
+                   Opt('sec', 'm', 'M', sub=[Opt('int', 'x', '', 1), Opt('func', 'include', '', None, 'i'), Opt('int', 'ml', 'L', [b'1', b'2'])]),     # ml: a list default is scanned from memory while an include may be open
                    Opt('sec', 'sec', '', sub=[Opt('int', 'x', '', 1), Opt('int', 'l', 'L', [b'1']), Opt('func', 'include', '', None, 'i')])])   # include is declared inside the sections too
 POOL = [b'i = 7', b'l += {2}', b's = "q r"', b'm { x = 3 }', b'sec { x = 4 l += {9} }', b'l = {5}', b'i = 8']
 LIMIT = 10
